@@ -587,17 +587,21 @@ scatter `volUnrows`); they are run against the real helper / operation by the co
 (`rowsref`, `rowsrefh`, `rowsvol … F`). -/
 
 /-- **Every iso-curve of A5.4 on rows is A5.4 of that iso-curve, and the knot vector is the same** – for
-    every column index inside the rows (`c < len(ctrlpts[0])`), every list `X`: no other hypothesis. -/
+    every column index inside the rows (`c < len(ctrlpts[0])`).  Guards of the code / the driver op (`hR`, `hX`; the
+    equation itself holds in the model without them): the rows are rectangular – on ragged rows the code raises
+    `IndexError` in `for idx2 in range(len(ctrlpts[0]))` while the model pads with `[]` – and `X` is not empty – the
+    helper raises "Cannot refine" before A5.4 is reached. -/
 theorem refineA54Rows_isocurve (c p : ℕ) (U : List K) (R : List (List (List K))) (X : List K) (tol : K)
-    (hc : c < (R.headD []).length) :
+    (hR : Rows.RectW (R.headD []).length R) (hX : X ≠ []) (hc : c < (R.headD []).length) :
     (refineA54Rows p U R X tol).1 = (refineA54 p U (isoCol c R) X tol).1 ∧
     isoCol c (refineA54Rows p U R X tol).2 = (refineA54 p U (isoCol c R) X tol).2 :=
   Rows.isoCol_refineA54Rows c p U R X tol hc
 
 /-- the whole helper call on rows, iso-curve by iso-curve: the same knot vector and the control points
-    of `knotRefinementA54` on that iso-curve (including the "Cannot refine" case) -/
+    of `knotRefinementA54` on that iso-curve (including the "Cannot refine" case); rectangular rows (`hR`: guard of
+    the code / driver op, as above) -/
 theorem knotRefinementRows_isocurve (c p : ℕ) (U : List K) (R : List (List (List K))) (kl : Option (List K))
-    (add : List K) (density : ℕ) (tol : K) (hc : c < (R.headD []).length) :
+    (add : List K) (density : ℕ) (tol : K) (hR : Rows.RectW (R.headD []).length R) (hc : c < (R.headD []).length) :
     (knotRefinementRows p U R kl add density tol).map (fun x => (x.1, isoCol c x.2))
       = knotRefinementA54 p U (isoCol c R) kl add density tol :=
   Rows.isoCol_knotRefinementRows c p U R kl add density tol hc
@@ -666,7 +670,9 @@ example : (refineVolRows exVolQ 0 1 (1/10000000)).map (fun T => (T.sizes, T.kv 0
     vector (in which no basis function vanishes on the whole domain, `AllActive`) whose curve has the points of
     the original curve on the half-open domain: then `R` IS the fold's net (C06 `control_points_unique`).  So
     any correct refinement algorithm – A5.4 in the code, for which this is also proved directly in (F) –
-    agrees with the specification-level model `knotRefinement`. -/
+    agrees with the specification-level model `knotRefinement`.  The hypothesis `hact : AllActive …` (no basis function
+    of the REFINED knot vector vanishes on the whole domain; decidable) is part of the statement and is NECESSARY
+    (a knot of multiplicity `p + 2` makes a control point invisible: C06 counterexample). -/
 theorem refinement_net_unique (p d : ℕ) (tol : K) (X : List K) (st : List K × List (List K))
     (hwf : CurveWF p d st.1 st.2) (hok : RefineOk p tol st X) (R : List (List K)) (hR : NetOk d R)
     (hlen : R.length = (X.foldl (insertOne p tol) st).2.length)
